@@ -49,6 +49,20 @@ CLAIMED = {
             "serialize/continue_task, asyncio tasks); 10% of programs re-executed under 3 more schedules.",
             "Trusted: scheduler (one baton), interpreter/model. Pre-emption at Python line boundaries only.",
             "DESIGN.md 3/C05"),
+    "C07": ("deterministic simulation with fault injection at every seam eliot offers: raising destinations "
+            "(masks), failing serializers, omitted declared fields, failing extractors, unencodable values, "
+            "OSError from the file; oracle: every API call returns within a step budget and raises nothing",
+            "Seeded exploration of fault mixes over generated programs (SEQ 90%, THREADS 10%); a third of the runs "
+            "switch exactly one fault source on. Hangs are found by a per-call line-event budget, not a timeout.",
+            "Trusted: the interpreter's wrapper around every eliot call; exception identity observed in its own "
+            "frames. Not injected: BaseException from destinations, MemoryError, reserved field names.",
+            "DESIGN.md 3/C07"),
+    "C08": ("deterministic simulation with fault injection: failure masks over the call sequences of 1-6 "
+            "destinations, registration changes between messages; executable reference model of the fan-out",
+            "Seeded exploration; per destination the exact sequence of offers (raising offers included) must equal "
+            "the model's; exactly one report per raising offer of a non-report, none for reports; report content.",
+            "Trusted: FaultyDest/Tap recording, the 40-line fan-out model in props/c08.py.",
+            "DESIGN.md 3/C08"),
 }
 
 NOT_YET = "check not built yet in this commit (planned, see DESIGN.md section 3)"
